@@ -115,5 +115,39 @@ def cursorRemove (s : StrMap) (c : Cursor) : Stat × Option Nat × StrMap × Cur
     | some v => (.ok, some v, s.remove k, { c with last := none })
     | none => (.errKeyNotFound, none, s, c)
 
+/-- operations of an iterator program (between `iter_init` and the end of its use) -/
+inductive IOp where
+  | next
+  | remove (wantOut : Bool)
+  deriving Repr, DecidableEq
+
+/-- what an iterator call returns: status, yielded key, yielded / removed value -/
+structure IOut where
+  st  : Stat
+  key : Option SKey := none
+  val : Option Nat := none
+  deriving Repr, DecidableEq
+
+/-- one iterator call on the ideal cursor; the third component says whether `choice` was a legal yield -/
+def cursorStep (s : StrMap) (c : Cursor) (choice : Option SKey) : IOp → IOut × Bool × StrMap × Cursor
+  | .next => let r := cursorNext s c choice
+             ({ st := r.1, key := r.2.1.map (·.1), val := r.2.1.map (·.2) }, r.2.2.1, s, r.2.2.2)
+  | .remove _ => let r := cursorRemove s c
+                 ({ st := r.1, val := r.2.1 }, true, r.2.2.1, r.2.2.2)
+
+/-- an iterator program; every call comes with the key the implementation yielded (if any) -/
+def cursorRun (s : StrMap) (c : Cursor) : List (Option SKey × IOp) → List (IOut × Bool) × StrMap × Cursor
+  | [] => ([], s, c)
+  | (ch, op) :: ops =>
+    let r := cursorStep s c ch op
+    let rs := cursorRun r.2.2.1 r.2.2.2 ops
+    ((r.1, r.2.1) :: rs.1, rs.2)
+
+/-- the iterator contract: `remove` at most once per yielded element (never directly after a `remove`) -/
+def legalProg : Bool → List IOp → Bool
+  | _, [] => true
+  | _, .next :: ops => legalProg false ops
+  | afterRemove, .remove _ :: ops => !afterRemove && legalProg true ops
+
 end StrMap
 end CC.Spec
